@@ -442,12 +442,26 @@ func (r *LockRun) Apply(op wx.Op) (res wx.Result) {
 		if int(idNum(id)) != before {
 			return r.fail("register-locked:id", fmt.Sprintf("after a rejected registration the next type got ID %d, expected %d", idNum(id), before))
 		}
-		if id2 := ecs.ComponentID[lockRelType](w); int(idNum(id2)) != before+1 {
+		id2 := ecs.ComponentID[lockRelType](w)
+		if int(idNum(id2)) != before+1 {
 			return r.fail("register-locked:id2", "the rejected type does not get the next free ID afterwards")
 		}
 		e := w.NewEntity(id)
 		if !w.Has(e, id) || w.Get(e, id) == nil {
 			return r.fail("register-locked:unusable", "the type registered after a rejected registration is not usable")
+		}
+		// it is an ordinary component: it can be combined with a relation component, and relation calls on it are illegal
+		if pv := catch(func() {
+			w.Add(e, id2)
+			w.Relations().Set(e, id2, r.e[1])
+			if w.Relations().Get(e, id2) != r.e[1] {
+				panic("target not stored")
+			}
+		}); pv != nil {
+			return r.fail("register-locked:not-plain", fmt.Sprintf("an entity can not carry the type registered after a rejected registration together with a relation component: %v", pv))
+		}
+		if !panics(func() { w.Relations().Get(e, id) }) || !panics(func() { w.Relations().Set(e, id, r.e[1]) }) {
+			return r.fail("register-locked:relation-calls", "relation calls on the (non-relation) type registered after a rejected registration of a relation type do not panic")
 		}
 		w.RemoveEntity(e)
 	}
